@@ -502,6 +502,65 @@ Definition b16_convert (chunks : list (list N)) : outcome (list N) :=
   c16_run c16_new [] (tokens chunks).
 
 (* ------------------------------------------------------------------ *)
+(* display into a fmt::Write that can fail (fixed-size string buffers):  *)
+(* every write_char / write_str is followed by `?`.  The writer is       *)
+(* modelled by what it holds and how many more characters it takes; a    *)
+(* write_str that does not fit fails as a whole.  Result: what the       *)
+(* writer holds afterwards and whether display returned Ok.              *)
+
+Definition writer := (list N * N)%type.
+Definition w_chars (w : writer) (l : list N) : option writer :=
+  let '(held, room) := w in
+  if N.of_nat (length l) <=? room then Some (held ++ l, room - N.of_nat (length l)) else None.
+Fixpoint w_each (w : writer) (l : list N) : writer * bool :=     (* write_char one by one, stop at Err *)
+  match l with
+  | [] => (w, true)
+  | c :: r => match w_chars w [c] with Some w' => w_each w' r | None => (w, false) end
+  end.
+
+Fixpoint b64_display_w (w : writer) (bs : list N) : outcome (writer * bool) :=
+  match bs with
+  | [] => Ok (w, true)
+  | [c0] =>
+      do a <- b64_ch (b64_e1_0 c0 0 0);
+      match w_chars w [a] with None => Ok (w, false) | Some w1 =>
+      do b <- b64_ch (b64_e1_1 c0 0 0);
+      Ok (w_each w1 [b; b64_disp_pad; b64_disp_pad]) end
+  | [c0; c1] =>
+      do a <- b64_ch (b64_e2_0 c0 c1 0);
+      match w_chars w [a] with None => Ok (w, false) | Some w1 =>
+      do b <- b64_ch (b64_e2_1 c0 c1 0);
+      match w_chars w1 [b] with None => Ok (w1, false) | Some w2 =>
+      do c <- b64_ch (b64_e2_2 c0 c1 0);
+      Ok (w_each w2 [c; b64_disp_pad]) end end
+  | c0 :: c1 :: c2 :: rest =>
+      do a <- b64_ch (b64_e3_0 c0 c1 c2);
+      match w_chars w [a] with None => Ok (w, false) | Some w1 =>
+      do b <- b64_ch (b64_e3_1 c0 c1 c2);
+      match w_chars w1 [b] with None => Ok (w1, false) | Some w2 =>
+      do c <- b64_ch (b64_e3_2 c0 c1 c2);
+      match w_chars w2 [c] with None => Ok (w2, false) | Some w3 =>
+      do d <- b64_ch (b64_e3_3 c0 c1 c2);
+      match w_chars w3 [d] with None => Ok (w3, false) | Some w4 =>
+      b64_display_w w4 rest end end end end
+  end.
+
+(* base16: f.write_str(ENCODE_ALPHABET[octet])? per octet *)
+Fixpoint b16_display_w (w : writer) (bs : list N) : outcome (writer * bool) :=
+  match bs with
+  | [] => Ok (w, true)
+  | c :: rest =>
+      match nth_error b16_encode_tab (N.to_nat c) with
+      | Some (hi, lo) =>
+          match w_chars w [hi; lo] with
+          | Some w' => b16_display_w w' rest
+          | None => Ok (w, false)
+          end
+      | None => Panic 1
+      end
+  end.
+
+(* ------------------------------------------------------------------ *)
 (* Bounded octets builders (octseq::Array<N>, heapless::Vec, ...):      *)
 (* append_slice fails with ShortBuf when the capacity is exhausted.     *)
 (* cap = None is the unbounded builder; for it the definitions below     *)
@@ -765,6 +824,90 @@ Definition b64_scan_entry := convert_entry_from iter_scanner_checks_escapes conv
 Definition b32_scan_entry := convert_entry_from iter_scanner_checks_escapes conv32 c32_sym c32_process_tail c32_new [].
 Definition b16_scan_entry := convert_entry_from iter_scanner_checks_escapes conv16 c16_sym c16_process_tail c16_new [].
 
+Fixpoint list_eqb0 (a b : list N) : bool :=
+  match a, b with
+  | [], [] => true
+  | x :: a', y :: b' => (x =? y) && list_eqb0 a' b'
+  | _, _ => false
+  end.
+
+(* --- the other token-reading methods of IterScanner --- *)
+Definition E_BAD_SYMBOL : N := 7.
+Definition E_NON_ASCII : N := 8.
+
+(* Symbol::into_octet *)
+Definition into_octet (y : symbol) : option N :=
+  match y with
+  | SChar c => if (c <? 128) && (sym_octet_min <=? c) && (c <=? sym_octet_max) then Some c else None
+  | SSimple c | SDecimal c => Some c
+  end.
+
+(* char::encode_utf8 *)
+Definition utf8 (c : N) : list N :=
+  if c <? 128 then [c]
+  else if c <? 2048 then [192 + c / 64; 128 + c mod 64]
+  else if c <? 65536 then [224 + c / 4096; 128 + (c / 64) mod 64; 128 + c mod 64]
+  else [240 + c / 262144; 128 + (c / 4096) mod 64; 128 + (c / 64) mod 64; 128 + c mod 64].
+
+Definition octet_proc (u : unit) (y : symbol) : outcome (unit * list N) :=
+  match into_octet y with Some o => Ok (u, [o]) | None => Err E_BAD_SYMBOL end.
+(* CharStrBuilder::append_slice: ShortBuf beyond CharStr::MAX_LEN; state = length so far *)
+Definition charstr_proc (n : N) (y : symbol) : outcome (N * list N) :=
+  match into_octet y with
+  | Some o => if charstr_max <? n + 1 then Err E_SHORTBUF else Ok (n + 1, [o])
+  | None => Err E_BAD_SYMBOL
+  end.
+Definition string_proc (u : unit) (y : symbol) : outcome (unit * list N) :=
+  match into_char y with Some c => Ok (u, utf8 c) | None => Err E_BAD_SYMBOL end.
+
+Definition scan_octets_with (chk : bool) (token : list N) : outcome (list N) :=
+  do ca <- scan_token chk unit octet_proc tt [] token; Ok (snd ca).
+Definition scan_charstr_with (chk : bool) (token : list N) : outcome (list N) :=
+  do ca <- scan_token chk N charstr_proc 0 [] token; Ok (snd ca).
+Definition scan_string_with (chk : bool) (token : list N) : outcome (list N) :=
+  do ca <- scan_token chk unit string_proc tt [] token; Ok (snd ca).
+Definition scan_ascii_str_with (chk : bool) (token : list N) : outcome (list N) :=
+  do bs <- scan_string_with chk token;
+  if forallb (fun b => b <? 128) bs then Ok bs else Err E_NON_ASCII.
+(* while peek().is_some() { scan_charstr()?.compose(&mut res)?; } *)
+Fixpoint scan_charstr_entry_with (chk : bool) (tokens : list (list N)) : outcome (list N) :=
+  match tokens with
+  | [] => Ok []
+  | tk :: r =>
+      do cs <- scan_charstr_with chk tk;
+      if 255 <? N.of_nat (length cs) then Panic 6                 (* expect("long charstr") *)
+      else do rest <- scan_charstr_entry_with chk r; Ok (N.of_nat (length cs) :: cs ++ rest)
+  end.
+(* scan_symbols / scan_entry_symbols with a callback that never fails: the
+   symbols the callback gets to see *)
+Definition scan_symbols_with (chk : bool) (token : list N) : outcome (list symbol) :=
+  let '(syms, ok) := symbols token in
+  if chk && negb ok then Err E_BAD_ESCAPE else Ok syms.
+Fixpoint scan_entry_symbols_with (chk : bool) (tokens : list (list N)) : outcome (list (option symbol)) :=
+  match tokens with
+  | [] => Ok []
+  | tk :: r =>
+      do syms <- scan_symbols_with chk tk;
+      do rest <- scan_entry_symbols_with chk r;
+      Ok (map Some syms ++ None :: rest)                          (* None = EndOfToken *)
+  end.
+(* scan_name: Name::from_symbols(&mut symbols) (a function of the symbols; the
+   name syntax itself is C03's subject), then symbols.ok() *)
+Definition scan_name_with (chk : bool) (from_syms : list symbol -> outcome (list N)) (token : list N)
+  : outcome (list N) :=
+  let '(syms, ok) := symbols token in
+  do nm <- from_syms syms;
+  if chk && negb ok then Err E_BAD_ESCAPE else Ok nm.
+Definition scan_opt_unknown_marker (token : list N) : bool := list_eqb0 token unknown_marker.
+
+Definition scan_octets := scan_octets_with iter_scanner_checks_escapes.
+Definition scan_charstr := scan_charstr_with iter_scanner_checks_escapes.
+Definition scan_string := scan_string_with iter_scanner_checks_escapes.
+Definition scan_ascii_str := scan_ascii_str_with iter_scanner_checks_escapes.
+Definition scan_charstr_entry := scan_charstr_entry_with iter_scanner_checks_escapes.
+Definition scan_symbols := scan_symbols_with iter_scanner_checks_escapes.
+Definition scan_entry_symbols := scan_entry_symbols_with iter_scanner_checks_escapes.
+
 (* --- Nsec3Salt --- *)
 Definition over (inclusive : bool) (max : N) (bs : list N) : bool :=
   if inclusive then max <? N.of_nat (length bs) else max <=? N.of_nat (length bs).
@@ -985,6 +1128,16 @@ Definition c18_saltscan := salt_scan.
 Definition c18_hashstr := hash_from_str.
 Definition c18_hashdisp := hash_display.
 Definition c18_hashscan := hash_scan.
+Definition c18_soct := scan_octets.
+Definition c18_scstr := scan_charstr.
+Definition c18_sstr := scan_string.
+Definition c18_sascii := scan_ascii_str.
+Definition c18_scent := scan_charstr_entry.
+Definition c18_ssym := scan_symbols.
+Definition c18_sesym := scan_entry_symbols.
+Definition c18_smark := scan_opt_unknown_marker.
+Definition c18_encw64 (room : N) (bs : list N) := b64_display_w ([], room) bs.
+Definition c18_encw16 (room : N) (bs : list N) := b16_display_w ([], room) bs.
 Definition c18_conv64 := b64_convert.
 Definition c18_conv32 := b32_convert.
 Definition c18_conv16 := b16_convert.
